@@ -102,6 +102,7 @@ type c07Rep struct {
 	R  string `json:"r"`
 	K  string `json:"k"`
 	Ln []int  `json:"ln"`
+	D  string `json:"d,omitempty"` // C07_DEBUG=1: the hashed material in clear
 }
 
 var c07FileLine = regexp.MustCompile(`(\.ya?ml):\d+`)
@@ -156,13 +157,23 @@ func c07Lint(dir, cfgText, content string) (reps []c07Rep, rules [][2]int, check
 		parts := []any{r.Summary, norm(r.Details), r.Severity, r.Anchor}
 		ln := []int{r.First, r.Last}
 		for _, d := range r.Diags {
-			parts = append(parts, norm(d.Message), d.First, d.Last)
+			parts = append(parts, norm(d.Message))
+			// The column range of a PromQL syntax error comes from the Prometheus parser, whose pooled parser objects
+			// carry position state over from whatever was parsed before in this process (observed: LastColumn 16 or 0 for
+			// `sum(`): it is not a function of the file, so it is not part of the projection.
+			if r.Reporter != "promql/syntax" {
+				parts = append(parts, d.First, d.Last)
+			}
 			for _, p := range d.Pos {
 				parts = append(parts, p.First, p.Last)
 				ln = append(ln, p.Line)
 			}
 		}
-		reps = append(reps, c07Rep{E: ruleNo[r.Entry], C: r.Check, R: r.Reporter, K: shortHash(parts...), Ln: ln})
+		rep := c07Rep{E: ruleNo[r.Entry], C: r.Check, R: r.Reporter, K: shortHash(parts...), Ln: ln}
+		if os.Getenv("C07_DEBUG") != "" {
+			rep.D = fmt.Sprint(parts...)
+		}
+		reps = append(reps, rep)
 	}
 	sort.Slice(reps, func(i, j int) bool {
 		a, b := reps[i], reps[j]
